@@ -105,6 +105,10 @@ def match_known(mod, known, case, res):
 
 # ----------------------------------------------------------------- execution
 
+class CaseTimeout(BaseException):
+    pass
+
+
 def execute(mod, case):
     """run one case; exceptions other than HarnessError that escape the
     property module's own handling are harness errors too (the modules
@@ -112,9 +116,10 @@ def execute(mod, case):
     import signal
 
     def on_alarm(signum, frame):
-        raise HarnessError(
-            f"case did not finish within {limit}s (hang in the harness or "
-            f"in the code under test): {json.dumps(enc(case))[:600]}")
+        # BaseException, and re-armed: code that catches Exception (the
+        # library's send loop does) must not be able to swallow the watchdog
+        signal.alarm(5)
+        raise CaseTimeout()
     limit = getattr(mod, "CASE_TIMEOUT", 120)
     try:
         old = signal.signal(signal.SIGALRM, on_alarm)
@@ -123,6 +128,10 @@ def execute(mod, case):
         old = None
     try:
         res = mod.run_case(case)
+    except CaseTimeout:
+        raise HarnessError(
+            f"case did not finish within {limit}s (hang in the harness or "
+            f"in the code under test): {json.dumps(enc(case))[:600]}")
     finally:
         if old is not None:
             signal.alarm(0)
